@@ -432,6 +432,73 @@ def _fixture(ctx):
         raise AnalysisError(f"R14a fixture: quoted-field classifier broken: {got}")
 
 
+# ------------------------------------------------------------------ R14c
+def r14c(ctx):
+    """The quoting helper denotes exactly its argument: "v", 'v', or concat() of the unfiltered v.split(q) pieces rejoined with q."""
+    repo = ctx.repo
+    ctx.rule("R14c", "the XPath string-literal helper denotes exactly its argument (no piece dropped, trimmed or re-ordered)", floor=3)
+    helpers = quoting_helpers(repo)
+    if not helpers:
+        ctx.instance("R14c", "src/odfdo/utils/xpath_query.py", "a quoting helper is defined", ok=False)
+        ctx.report("R14c", repo.module("utils.xpath_query"), repo.module("utils.xpath_query").tree, "no XPath string-literal quoting helper recognised",
+                   "no function of the package is provably an XPath string-literal quoting helper (every return quoting its argument under a guard or by split+concat)")
+        return
+    for name, f in helpers.items():
+        param = f.params[0]
+        # the value variable: the parameter itself or `text = str(param)`
+        valvars = {param}
+        for a in walk_no_nested(f.node):
+            if isinstance(a, ast.Assign) and isinstance(a.targets[0], ast.Name) and ast.unparse(a.value) in (f"str({param})", param):
+                valvars.add(a.targets[0].id)
+        for r in [n for n in walk_no_nested(f.node) if isinstance(n, ast.Return) and n.value is not None]:
+            ps = parts(r.value) or []
+            lits = "".join(v for k, v in ps if k == "lit")
+            if "concat(" not in lits:
+                # simple form: q + value + q, nothing else
+                ok = len(ps) == 3 and ps[0][0] == "lit" and ps[2][0] == "lit" and ps[0][1] == ps[2][1] and ps[0][1] in ("'", '"') \
+                    and ps[1][0] == "field" and isinstance(ps[1][1], ast.Name) and ps[1][1].id in valvars
+                ctx.instance("R14c", f"{f.file}:{f.ident}", f"return {norm(r.value, 40)} is q + value + q", ok=ok, nontrivial=True, line=r.lineno)
+                if not ok:
+                    ctx.report("R14c", f, r, r.value, "the quoted literal is not exactly quote + value + quote: the lookup compares against a different string")
+                continue
+            # concat form
+            joins = [c for c in ast.walk(r.value) if isinstance(c, ast.Call) and call_name(c) == "join" and isinstance(c.func, ast.Attribute)]
+            ok, why = False, "no join(...) of quoted pieces"
+            if len(joins) == 1:
+                j = joins[0]
+                sep = repo.fold(j.func.value, f.module)
+                gen = j.args[0] if j.args else None
+                why = ""
+                if not (isinstance(sep, str) and sep.replace(" ", "") in (",'\"',", ',"\'",')):
+                    why = f"separator {sep!r} is not the quote character as its own literal"
+                elif not isinstance(gen, (ast.GeneratorExp, ast.ListComp)) or len(gen.generators) != 1 or gen.generators[0].ifs:
+                    why = "the joined pieces are filtered or not a plain comprehension"
+                else:
+                    q = '"' if "'\"'" in sep else "'"
+                    it = gen.generators[0].iter
+                    src = it
+                    if isinstance(it, ast.Name):
+                        defs = [a.value for a in walk_no_nested(f.node) if isinstance(a, ast.Assign) and isinstance(a.targets[0], ast.Name) and a.targets[0].id == it.id]
+                        src = defs[0] if len(defs) == 1 else None
+                    if not (isinstance(src, ast.Call) and call_name(src) == "split" and isinstance(src.func, ast.Attribute) and isinstance(src.func.value, ast.Name)
+                            and src.func.value.id in valvars and len(src.args) == 1 and repo.fold(src.args[0], f.module) == q and not src.keywords):
+                        why = f"the pieces are not exactly <value>.split({q!r}) (filtered, sliced or transformed)"
+                    else:
+                        eps = parts(gen.elt) or []
+                        other = q  # a piece cannot contain q (it was split on it), so q may delimit it
+                        okp = len(eps) == 3 and eps[0][1] == other
+                        tgt = gen.generators[0].target
+                        okp = okp and eps[2][1] == other and isinstance(eps[1][1], ast.Name) and isinstance(tgt, ast.Name) and eps[1][1].id == tgt.id
+                        if not okp:
+                            why = "each piece is not quoted as-is with the quote character it was split on"
+                ok = why == ""
+            ctx.instance("R14c", f"{f.file}:{f.ident}", f"concat form rebuilds the value from value.split(q) {('— ' + why) if why else ''}", ok=ok, nontrivial=True, line=r.lineno)
+            if not ok:
+                ctx.report("R14c", f, r, "concat(...) does not denote the value",
+                           f"the concat() fallback of {name} does not rebuild exactly its argument ({why}): an identifier with both quote characters is "
+                           f"looked up under a different string, or the query is malformed")
+
+
 # ------------------------------------------------------------------ R14b
 def r14b(ctx):
     """make_xpath_query keyword → attribute table is a function: distinct keywords map to distinct
@@ -464,6 +531,7 @@ def r14b(ctx):
 
 def run(ctx):
     r14a(ctx)
+    r14c(ctx)
     r14b(ctx)
 
 
@@ -491,6 +559,9 @@ SEEDS = [
          "    def get_references(self, name: str | None = None) -> list[Element]:", "R14a"),
     Seed("quoting helper loses its guard", "fault", _XQ,
          "    if '\"' not in text:\n        return f'\"{text}\"'", "    if text:\n        return f'\"{text}\"'", "R14a"),
+    Seed("concat fallback drops empty chunks", "fault", _XQ, "    parts = text.split('\"')\n", "    parts = [part for part in text.split('\"') if part]\n", "R14c"),
+    Seed("concat fallback trims the pieces", "fault", _XQ, "f'\"{part}\"' for part in parts", "f'\"{part.strip()}\"' for part in parts", "R14"),
+    Seed("simple form pads the value", "fault", _XQ, "        return f'\"{text}\"'", "        return f'\" {text}\"'", "R14c"),
     Seed("reference.referenced_text old style", "fault", "src/odfdo/reference.py",
          'f"[preceding::text:reference-mark-start[@text:name={xpath_string_literal(name)}] "',
          'f"[preceding::text:reference-mark-start[@text:name=\'{name}\'] "', "R14a", count=2),
